@@ -46,7 +46,7 @@ class Contract:
     def __init__(self, target, params=None, requires=(), ensures=(), exc_ensures=(), raises=None,
                  ret=None, may_raise=(), modifies=(), loops=None, props=(), assumed=False, replay=None,
                  inline=False, uf=False, cm_contract=None, kind="function", note="", witnesses=(),
-                 reads_heap=False, unroll_while=0, self_type=None, verify=True, inline_callees=False, cm_body=None, local_types=None, ghost_init=None, custom=None, opaque_externals=False, fresh_result=False):
+                 reads_heap=False, unroll_while=0, self_type=None, verify=True, inline_callees=False, cm_body=None, local_types=None, ghost_init=None, custom=None, opaque_externals=False, fresh_result=False, definitions=()):
         self.target = target
         self.module, self.qual = target.split(":")
         self.params = params  # dict name -> Ty (None => from annotations)
@@ -68,6 +68,7 @@ class Contract:
         self.custom = custom
         self.opaque_externals = opaque_externals
         self.fresh_result = fresh_result
+        self.definitions = list(definitions)  # definitional axioms assumed when verifying the body (not call-site obligations)
         self.verify = verify and not assumed
         if not assumed and not self.may_raise and raises:
             self.may_raise = sorted(raises)
